@@ -5,15 +5,26 @@ class C19(Check):
     ID = "C19"
     RULE = ("systematic: failure injected at every position of an unordered 6-entry table x stored versions 0..11; "
             "random: tables of 0..7 entries (unordered, gaps, nil entries, nil duplicates, failing entries, numbers near 2^32), "
-            "stored version below/at/above latest, run through migration.Upgrade inside walletdb.Update on a real bbolt file. "
+            "stored version below/at/above latest, run through migration.Upgrade inside walletdb.Update on a real bbolt file; plus six cases on the REAL "
+            "wtxmgr and waddrmgr migration managers through wallet.Open (both components in one database transaction: newer versions refused with the whole "
+            "file unchanged, incl. the roll-back of the other component's already applied migration; the real drop-history migration applied and recorded). "
             "non-trivial = at least one pending non-nil migration or stored version above latest; distinct by input")
     N_QUICK = 400
     N_THOROUGH = 20000
     ASSUMPTIONS = ["all-or-nothing of the enclosing walletdb.Update is property C11 (model: abort restores the pre-state)",
                    "sort.Slice is unstable: entries with equal numbers are generated only as nil migrations"]
 
+    def evaluate_model(self, cases):
+        # the cases on the real wtxmgr/waddrmgr migration managers are judged by
+        # the oracle only (their migrations are real code, not model terms)
+        idx = [i for i, c in enumerate(cases) if not c["in"].get("real")]
+        mism, logs, problems = super().evaluate_model([cases[i] for i in idx])
+        return [idx[m] for m in mism], logs, problems
+
     def nontrivial(self, c):
         i = c["in"]
+        if i.get("real"):
+            return True
         latest = max([v["num"] for v in i["versions"]] + [0])
         if i["stored"] > latest:
             return True
